@@ -49,14 +49,18 @@ func runNBRandom(w *rt.World, res *hx.Result, kind int) *hx.Violation {
 			g.gap = hx.G(4)
 		}
 	}
-	var clTCP, clAbort, clWindow, clN [maxClients]int
+	var clTCP, clAbort, clWindow, clN, clLinger [maxClients]int
 	for c := 0; c < maxClients; c++ {
+		clLinger[c] = hx.F(4) // tcp: 0 = keep the connection open (idle) until after Stop; 1 = connect and send nothing, stay connected
 		clTCP[c] = hx.G(3)
 		clAbort[c] = hx.F(6)
 		clWindow[c] = hx.F(4)
 		clN[c] = 1 + hx.G(maxReqs)
 	}
 	nClients := 2 + hx.G(maxClients-1)
+	churnOn := hx.G(3) != 0
+	churnRounds := 1 + hx.G(3)
+	churnTCP := kind == 2 && hx.G(2) == 0
 	stopMode := hx.F(8) // 0..1: after the clients; else: at a chosen time while they run
 	stopAt := [...]int64{0, 0, 0, 1e6, 10e6, 100e6, 1e9, 6e9}[stopMode]
 	abortPos := hx.F(1 << 12)
@@ -69,10 +73,13 @@ func runNBRandom(w *rt.World, res *hx.Result, kind int) *hx.Violation {
 	// ---- quiescent phase: populate, then learn the sequential answers
 	w.Quiet = true
 	var clients []*nbClient
+	release := &rt.Flag{} // set after the shutdown phase: lingering TCP clients close their connections only then
 	idc := uint16(0x1000 + hx.G(0x4000))
 	for c := 0; c < nClients; c++ {
-		cl := &nbClient{idx: c, host: fmt.Sprintf("10.0.1.%d", c+1), abortAt: -1}
+		cl := &nbClient{idx: c, host: fmt.Sprintf("10.0.1.%d", c+1), abortAt: -1, ioDone: &rt.Flag{}, release: release}
 		cl.tcp = kind == 2 && clTCP[c] == 0
+		cl.linger = cl.tcp && clLinger[c] <= 1
+		cl.silent = cl.tcp && clLinger[c] == 1
 		for r := 0; r < clN[c]; r++ {
 			g := pool[c][r]
 			var qn []string
@@ -84,12 +91,16 @@ func runNBRandom(w *rt.World, res *hx.Result, kind int) *hx.Violation {
 			for i := 0; i < nq; i++ {
 				qn = append(qn, nameOf(g.names[i%3]%nNames))
 			}
+			churnQ := churnOn && g.big != 0 && g.gap == 3
+			if churnQ {
+				qn = []string{churnName}
+			}
 			idc += 1 + uint16(g.names[1]%3)
 			b := buildRequest(idc, 0, uint16(g.names[2]%2)<<8, qn, "", nil, 0, false)
-			cl.reqs = append(cl.reqs, &nbReq{id: idc, bytes: b, sig: stripID(b), tcp: cl.tcp})
+			cl.reqs = append(cl.reqs, &nbReq{id: idc, bytes: b, sig: stripID(b), tcp: cl.tcp, churn: churnQ})
 			cl.gaps = append(cl.gaps, g.gap)
 		}
-		if cl.tcp && clAbort[c] == 0 {
+		if cl.tcp && clAbort[c] == 0 && !cl.linger {
 			total := 0
 			for _, r := range cl.reqs {
 				total += 2 + len(r.bytes)
@@ -100,6 +111,7 @@ func runNBRandom(w *rt.World, res *hx.Result, kind int) *hx.Violation {
 	}
 	expUDP := map[string][]byte{}
 	expTCP := map[string][]byte{}
+	var churnUDP, churnTCPAns [][]byte // the answers to "query churn group" in every state of the churn cycle
 	setup := rt.GoHarness("setup", "10.0.1.250", func() {
 		for i := 0; i < nNames; i++ {
 			if !registered[i] {
@@ -111,8 +123,30 @@ func runNBRandom(w *rt.World, res *hx.Result, kind int) *hx.Violation {
 				udpExchange(buildRequest(0x0050+uint16(i), 5, 0, nil, nameOf(i), ipOf(i), 86400, false), 3*time.Second)
 			}
 		}
+		if churnOn {
+			for _, m := range churnMembers {
+				churnOp(sys, kind, 5, m)
+			}
+			probe := buildRequest(0x0444, 0, 0, []string{churnName}, "", nil, 0, false)
+			for step := 0; step <= len(churnCycle); step++ {
+				if a := udpExchange(probe, 3*time.Second); a != nil {
+					churnUDP = append(churnUDP, a)
+				}
+				if kind == 2 {
+					if a := tcpExchange(probe, 3*time.Second); a != nil {
+						churnTCPAns = append(churnTCPAns, a)
+					}
+				}
+				if step < len(churnCycle) {
+					churnOp(sys, kind, churnCycle[step].op, churnMembers[churnCycle[step].m])
+				}
+			}
+		}
 		for _, cl := range clients {
 			for _, r := range cl.reqs {
+				if r.churn {
+					continue
+				}
 				if cl.tcp {
 					if _, ok := expTCP[r.sig]; !ok {
 						expTCP[r.sig] = tcpExchange(r.bytes, 3*time.Second)
@@ -138,6 +172,12 @@ func runNBRandom(w *rt.World, res *hx.Result, kind int) *hx.Violation {
 			tasks = append(tasks, rt.GoHarness(fmt.Sprintf("udp-client%d", cl.idx), cl.host, func() { udpClient(cl) }))
 		}
 	}
+	churnReliable := true
+	if churnOn {
+		tasks = append(tasks, rt.GoHarness("churner", "10.0.1.200", func() {
+			churnReliable = churner(churnTCP, churnRounds)
+		}))
+	}
 	var stopper *rt.Task
 	stoppedEarly := false
 	if stopMode >= 2 {
@@ -148,8 +188,19 @@ func runNBRandom(w *rt.World, res *hx.Result, kind int) *hx.Violation {
 			sys.stop()
 		})
 	}
-	for _, t := range tasks {
-		rt.Join(t, -1)
+	var churnTask *rt.Task
+	if churnOn {
+		churnTask = tasks[len(tasks)-1]
+	}
+	for i, cl := range clients {
+		if cl.linger {
+			cl.ioDone.Wait(-1)
+		} else {
+			rt.Join(tasks[i], -1)
+		}
+	}
+	if churnTask != nil {
+		rt.Join(churnTask, -1)
 	}
 
 	// ---- shutdown phase: no more faults; Stop must return, every SUT task must exit
@@ -160,12 +211,22 @@ func runNBRandom(w *rt.World, res *hx.Result, kind int) *hx.Violation {
 			sys.stop()
 		})
 	}
-	if !joinWithin(stopper, 32e9) {
-		return &hx.Violation{Class: "stop_blocked", Key: sysName,
-			Msg: "Stop() had not returned 32 simulated seconds after it was called; the calling task is " + stopper.StateString()}
+	stopOK := joinWithin(stopper, nbStopBound)
+	var leakV *hx.Violation
+	if stopOK {
+		leakV = shutdownCheck(sysName, nbStopBound)
 	}
-	if v := shutdownCheck(sysName, 32e9); v != nil {
-		return v
+	// now the lingering clients may go
+	release.Set()
+	for _, t := range tasks {
+		rt.Join(t, -1)
+	}
+	if leakV != nil {
+		return leakV
+	}
+	if !stopOK {
+		return &hx.Violation{Class: "stop_blocked", Key: sysName,
+			Msg: fmt.Sprintf("Stop() had not returned %.0f simulated seconds after it was called; the calling task is %s", float64(nbStopBound)/1e9, stopper.StateString())}
 	}
 	noteSockets()
 
@@ -208,6 +269,31 @@ func runNBRandom(w *rt.World, res *hx.Result, kind int) *hx.Violation {
 						Msg: fmt.Sprintf("tcp client %d: response #%d carries id %#04x, request #%d had another id", cl.idx, k, id, k)}
 				}
 			}
+			if r.churn {
+				// the churn group is being released / re-registered member by member while it is queried: the
+				// answer must be the answer of one of the states of that cycle, never a mixture
+				seen[id]++
+				unreliable := !churnReliable || (!churnTCP && (w.Stats.Probes[rt.PDgramDup] > 0 || w.Stats.Probes[rt.PDgramDelayed] > 0))
+				if unreliable || stoppedEarly {
+					continue // lost / duplicated / reordered churn requests may have taken the group off the cycle
+				}
+				set := churnUDP
+				if cl.tcp {
+					set = churnTCPAns
+				}
+				okc := false
+				for _, a := range set {
+					if equalModID(raw, a) {
+						okc = true
+					}
+				}
+				if !okc {
+					return &hx.Violation{Class: "wrong_answer", Key: sysName + "/group-under-churn",
+						Msg: fmt.Sprintf("client %d queried the group %s while its members were released and re-registered one at a time; the answer matches no state the group was ever in.\n  got: %s\n  states: %s",
+							cl.idx, churnName, describeResp(raw), describeAll(set))}
+				}
+				continue
+			}
 			exp := expUDP[r.sig]
 			if cl.tcp {
 				exp = expTCP[r.sig]
@@ -231,6 +317,9 @@ func runNBRandom(w *rt.World, res *hx.Result, kind int) *hx.Violation {
 				exp := expUDP[r.sig]
 				if cl.tcp {
 					exp = expTCP[r.sig]
+				}
+				if r.churn {
+					continue
 				}
 				if exp != nil && seen[r.id] == 0 {
 					return &hx.Violation{Class: "no_response", Key: sysName,
@@ -260,6 +349,9 @@ func describeResp(b []byte) string {
 }
 
 func noteStop() {
+	if rt.CountLiveSUT("handlePacket")+rt.CountLiveSUT("processHandlers") >= 2 {
+		rt.Probe(PTwoHandlersAlive)
+	}
 	for _, t := range rt.LiveSUTTasks() {
 		switch {
 		case t.Blocked() && (t.Wreason == "UDPConn.Read" || t.Wreason == "Listener.Accept"):
@@ -300,6 +392,9 @@ func udpClient(cl *nbClient) {
 		if n >= 2 {
 			distinct[binary.BigEndian.Uint16(buf)] = true
 		}
+		if rt.CountLiveSUT("handlePacket") >= 2 {
+			rt.Probe(PTwoHandlersAlive)
+		}
 	}
 	// linger a little for strays and duplicates
 	c.SetReadDeadline(time.Unix(rt.EpochUnix, 0).Add(time.Duration(rt.Now() + 200e6)))
@@ -313,11 +408,20 @@ func udpClient(cl *nbClient) {
 }
 
 func tcpClient(cl *nbClient, window int) {
+	defer cl.ioDone.Set()
 	c, err := simnet.Dial("tcp", serverHost+":137")
 	if err != nil {
 		return
 	}
 	defer c.Close()
+	if cl.linger {
+		// an idle client: the connection stays open until the harness has judged the shutdown
+		defer cl.release.Wait(-1)
+		defer cl.ioDone.Set()
+		if cl.silent {
+			return
+		}
+	}
 	simnet.SetWindow(simnet.Peer(c), window) // bytes the server may have in flight towards this (slow) client
 	var stream []byte
 	for _, r := range cl.reqs {
@@ -349,4 +453,92 @@ func tcpClient(cl *nbClient, window int) {
 		}
 		cl.got = append(cl.got, f)
 	}
+}
+
+// nbStopBound: "promptly" for the NBNS servers. On the pinned tree Stop() needs no simulated time at all
+// (closing the sockets wakes every blocked loop); the bound tolerates designs that poll at the granularity
+// of the 5 s UDP read timeout, and flags a Stop that has to wait out the 30 s TCP read timeout.
+const nbStopBound = int64(6e9)
+
+const churnName = "CHURNGRP"
+
+var churnMembers = [...]net.IP{{10, 9, 0, 1}, {10, 9, 0, 2}, {10, 9, 0, 3}}
+
+// One round of the churn: always release the member that is first in the owner list, then register it again
+// (it re-enters at the end), so every release shifts the list. After three release/register pairs the group
+// is back in its initial state.
+var churnCycle = [...]struct{ op, m int }{{6, 0}, {5, 0}, {6, 1}, {5, 1}, {6, 2}, {5, 2}}
+
+func churnReq(id uint16, op int, m net.IP) []byte {
+	flags := uint16(0)
+	if op == 5 {
+		flags = 0x0080 // group registration
+	}
+	return buildRequest(id, op, flags, nil, churnName, m, 86400, false)
+}
+
+// churnOp performs one churn step on the quiescent server (setup).
+func churnOp(sys *nbSystem, kind, op int, m net.IP) {
+	if kind == 2 {
+		if op == 5 {
+			sys.table.RegisterName(churnName, nbtns.Group, m, 24*time.Hour)
+		} else {
+			sys.table.ReleaseName(churnName, m)
+		}
+		return
+	}
+	udpExchange(churnReq(0x0440, op, m), 3*time.Second)
+}
+
+// churner walks the churn cycle during the concurrent phase. Every step is repeated until the server
+// acknowledged it (the operations are idempotent); false = a step was never acknowledged.
+func churner(tcp bool, rounds int) bool {
+	id := uint16(0x0600)
+	if tcp {
+		c, err := simnet.Dial("tcp", serverHost+":137")
+		if err != nil {
+			return false
+		}
+		defer c.Close()
+		c.SetDeadline(time.Unix(rt.EpochUnix, 0).Add(time.Duration(rt.Now() + 40e9)))
+		for r := 0; r < rounds; r++ {
+			for _, st := range churnCycle {
+				id++
+				req := churnReq(id, st.op, churnMembers[st.m])
+				fr := make([]byte, 2, 2+len(req))
+				binary.BigEndian.PutUint16(fr, uint16(len(req)))
+				if _, err := c.Write(append(fr, req...)); err != nil {
+					return false
+				}
+				if readFrame(c) == nil {
+					return false
+				}
+			}
+		}
+		return true
+	}
+	for r := 0; r < rounds; r++ {
+		for _, st := range churnCycle {
+			acked := false
+			for try := 0; try < 4 && !acked; try++ {
+				id++
+				acked = udpExchange(churnReq(id, st.op, churnMembers[st.m]), time.Second) != nil
+			}
+			if !acked {
+				return false
+			}
+		}
+	}
+	return true
+}
+
+func describeAll(set [][]byte) string {
+	s := ""
+	for i, a := range set {
+		if i > 0 {
+			s += " | "
+		}
+		s += describeResp(a)
+	}
+	return s
 }
